@@ -330,6 +330,64 @@ fn main() {
         child();
         return;
     }
+    if std::env::args().nth(1).as_deref() == Some("args") {
+        // from command-line flags to the limit in force: parse_vm_args on generated flag lists; every item carries its raw text and
+        // its term in the Coq model (Model/HeapArgs.v)
+        let mut rng = Rng::new(arg_u64("--seed", 0) ^ 0xA465);
+        let sizes: &[(&str, Option<u64>)] = &[("2M", Some(2 << 20)), ("1M", Some(1 << 20)), ("1048576", Some(1 << 20)), ("1048575", Some(1048575)), ("4G", Some(4 << 30)),
+            ("16K", Some(16384)), ("3m", Some(3 << 20)), ("1g", Some(1 << 30)), ("0", Some(0)), ("abc", None), ("99999999999G", None), ("2097152", Some(2 << 20)),
+            ("64M", Some(64 << 20)), ("", None), ("-5M", None), ("5T", None), ("1024k", Some(1 << 20))];
+        let item = |rng: &mut Rng, kind: u64| -> (String, String) {
+            let sp = |rng: &mut Rng, key: &str, v: &str| if rng.chance(1, 2) { format!("-ae.{}={}", key, v) } else { format!("--ae-{}={}", key, v) };
+            let b = |rng: &mut Rng| -> (&'static str, bool) { *rng.pick(&[("true", true), ("false", false), ("TRUE", true), ("False", false)]) };
+            match kind {
+                0 => { let (t, v) = *rng.pick(sizes); (sp(rng, "max-heap", t), match v { Some(x) => format!("FMaxHeap (Some {}%N)", x), None => "FMaxHeap None".into() }) }
+                1 => { let (t, v) = b(rng); (sp(rng, "allow-fs", t), format!("FAllowFs {}", v)) }
+                2 => { let (t, v) = b(rng); (sp(rng, "allow-net", t), format!("FAllowNet {}", v)) }
+                3 => { let (t, v) = b(rng); (sp(rng, "allow-exec", t), format!("FAllowExec {}", v)) }
+                4 => { let (t, v) = b(rng); (sp(rng, "trusted", t), format!("FTrusted {}", v)) }
+                5 => ("--dev".into(), "FDev".into()),
+                6 | 7 => {
+                    let names = ["fs", "net", "exec", "custom", "gpu"];
+                    let k = 1 + rng.below(3) as usize;
+                    let pick: Vec<&str> = (0..k).map(|_| *rng.pick(&names)).collect();
+                    let has = |n: &str| pick.contains(&n);
+                    (format!("--{}-caps={}", if kind == 6 { "allow" } else { "deny" }, pick.join(",")),
+                     format!("{} {} {} {} {}%N", if kind == 6 { "FAllowCaps" } else { "FDenyCaps" }, has("fs"), has("net"), has("exec"), k))
+                }
+                8 => (rng.pick(&["-ae.unknown=1", "-ae.trusted", "--ae-allow-fs=yes", "-ae.max-heap", "--ae-=1", "--allow-caps=", "--deny-caps=fs,,net"]).to_string(), "FBad".into()),
+                _ => (rng.pick(&["prog.aelys", "--flag", "-x", "ae.max-heap=1M", "--trusted", "-ae", "--aemax-heap=1M"]).to_string(), "FProgram".into()),
+            }
+        };
+        let mut lists: Vec<Vec<(String, String)>> = vec![vec![]];
+        // structured: a max-heap flag together with every other kind of flag, in both orders and in the middle
+        for other in 1..10u64 {
+            for _ in 0..6 {
+                let m = item(&mut rng, 0); let o = item(&mut rng, other); let m2 = item(&mut rng, 0);
+                lists.push(vec![m.clone(), o.clone()]); lists.push(vec![o.clone(), m.clone()]); lists.push(vec![m, o, m2]);
+            }
+        }
+        // the explicit combinations of the seeded change
+        for (a, b) in [("-ae.max-heap=2M", "-ae.trusted=true"), ("--ae-trusted=true", "--ae-max-heap=2M"), ("-ae.max-heap=2M", "--ae-trusted=TRUE")] {
+            lists.push(vec![(a.to_string(), if a.contains("max") { "FMaxHeap (Some 2097152%N)".into() } else { "FTrusted true".into() }),
+                            (b.to_string(), if b.contains("max") { "FMaxHeap (Some 2097152%N)".into() } else { "FTrusted true".into() })]);
+        }
+        for _ in 0..arg_u64("--random", 300) {
+            let n = rng.below(7);
+            // mostly valid flags: errors end the parse
+            lists.push((0..n).map(|_| { let k = if rng.chance(1, 12) { 8 } else { *rng.pick(&[0u64, 0, 0, 1, 2, 3, 4, 4, 5, 6, 7, 9]) }; item(&mut rng, k) }).collect());
+        }
+        for (k, l) in lists.iter().enumerate() {
+            let raw: Vec<String> = l.iter().map(|x| x.0.clone()).collect();
+            let obs = match aelys_runtime::parse_vm_args(&raw) {
+                Ok(p) => format!("1; {}; {}; {}; {}; {}", p.config.max_heap_bytes, p.config.capabilities.allow_fs as u8, p.config.capabilities.allow_net as u8,
+                                 p.config.capabilities.allow_exec as u8, p.config.allow_hot_reload as u8),
+                Err(_) => "0; 0; 0; 0; 0; 0".into(),
+            };
+            println!("ARGS\t{}\t[{}]\t[{}]%N\t{}", k, l.iter().map(|x| x.1.clone()).collect::<Vec<_>>().join("; "), obs, raw.join(" "));
+        }
+        return;
+    }
     if std::env::args().nth(1).as_deref() == Some("sizes") {
         println!("AelysArray={} AelysVec={} AelysString={} Value={}", std::mem::size_of::<aelys_bytecode::object::AelysArray>(),
                  std::mem::size_of::<aelys_bytecode::object::AelysVec>(), std::mem::size_of::<aelys_bytecode::object::AelysString>(),
